@@ -53,3 +53,68 @@ if __name__ == "__main__":
     print(n, "tests run inside the shims;", len(bad), "failing")
     for b in bad:
         print("  ", b)
+
+
+CORPUS = ["testdata/nekonabe/nekonabe.sm", "testdata/Springtime/Springtime.ssc", "testdata/L9/L9.ssc", "testdata/blank/blank.sm", "testdata/blank/blank.ssc"]
+
+
+def corpus_differential():
+    """every corpus chart through the shim-loaded modules and through the real modules: decoded notes, from_notes text,
+    group/ungroup round trip, note times and hittability must agree (times within 1e-9 s)."""
+    import os
+    from fractions import Fraction
+    from vlib import symx
+    mods = symx.load_shimmed(("simfile", "simfile.notes", "simfile.notes.group", "simfile.notes.timed", "simfile.timing", "simfile.timing.engine"))
+    import simfile as real
+    from simfile.notes import NoteData as RND
+    from simfile.notes.group import group_notes as rgroup, ungroup_notes as rungroup, OrphanedNotes as ROrph
+    from simfile.notes.timed import time_notes as rtime, UnhittableNotes as RUn
+    from simfile.timing import TimingData as RTD
+    S = mods["simfile"]; N = mods["simfile.notes"]; G = mods["simfile.notes.group"]; TN = mods["simfile.notes.timed"]; T = mods["simfile.timing"]
+    symx.CTL = symx.Ctl()
+    bad, n = [], 0
+    key = lambda x: (int(x.player), Fraction(int(x.beat.numerator), int(x.beat.denominator)), int(x.column), x.note_type.value, x.keysound_index)
+    for rel in CORPUS:
+        path = os.path.join(symx.REPO, rel)
+        text = open(path, encoding="utf-8").read()
+        a = real.loads(text, strict=False); b = S.loads(text, strict=False)
+        if dict(a) != dict(b) or len(a.charts) != len(b.charts):
+            bad.append((rel, "loaded properties differ")); continue
+        for i, (ca, cb) in enumerate(zip(a.charts, b.charts)):
+            n += 1
+            na, nb = list(RND(ca)), list(N.NoteData(cb))
+            if [key(x) for x in na] != [key(x) for x in nb]:
+                bad.append((rel, i, "decoded notes differ")); continue
+            cols = RND(ca).columns
+            if str(RND.from_notes(na, cols)) != str(N.NoteData.from_notes(nb, cols)):
+                bad.append((rel, i, "from_notes text differs"))
+            ga = list(rungroup(rgroup(na, join_heads_to_tails=True, orphaned_head=ROrph.KEEP_ORPHAN, orphaned_tail=ROrph.KEEP_ORPHAN), orphaned_notes=ROrph.KEEP_ORPHAN))
+            gb = list(G.ungroup_notes(G.group_notes(nb, join_heads_to_tails=True, orphaned_head=G.OrphanedNotes.KEEP_ORPHAN, orphaned_tail=G.OrphanedNotes.KEEP_ORPHAN), orphaned_notes=G.OrphanedNotes.KEEP_ORPHAN))
+            if [key(x) for x in ga] != [key(x) for x in gb]:
+                bad.append((rel, i, "group/ungroup differs"))
+            try:
+                ta = list(rtime(RND(ca), RTD(a, ca), RUn.TAP_TO_FAKE)); tb = list(TN.time_notes(N.NoteData(cb), T.TimingData(b, cb), TN.UnhittableNotes.TAP_TO_FAKE))
+            except Exception as e:
+                bad.append((rel, i, "time_notes raised %r" % (e,))); continue
+            if len(ta) != len(tb) or any(key(x.note) != key(y.note) or abs(float(x.time) - float(Fraction(symx.term_of(y.time)))) > 1e-9 for x, y in zip(ta, tb)):
+                bad.append((rel, i, "timed notes differ"))
+    return n, bad
+
+
+def ob_corpus_differential(budget_s=300):
+    from vlib import symx
+    r = symx.Result()
+    n, bad = corpus_differential()
+    r.paths = n
+    r.twin_sat = n > 0
+    if bad:
+        r.status = "inconclusive"
+        r.reason = "stand-ins disagree with the real types on %d corpus charts: %s" % (len(bad), bad[:3])
+    else:
+        r.status = "discharged"
+        r.reason = "%d corpus charts agree between the shim-loaded and the real modules" % n
+    d = r.as_dict()
+    if bad:
+        d["harness_error"] = True
+        d["fatal"] = True
+    return d
